@@ -1,4 +1,4 @@
-import XmlRsModel.Lemmas.AbsContent
+import XmlRsModel.Lemmas.AbsDoctype
 /-! `absDocument (tree of a rendering) = the abstract document`, and the size/depth facts `parseDoc` asks for. -/
 namespace XmlRs.Lex
 open XmlRs Gen.Xml XmlRs.Names
@@ -204,14 +204,12 @@ theorem not_mem_of_all_ne {s : Str} {c : Char} (h : s.all (fun d => d != c) = tr
   have := (List.all_eq_true.mp h) c hm
   simp at this
 
-theorem yes_lit : "yes".toList = ['y', 'e', 's'] := by rfl
-
 theorem decl_standalone (x : CDecl) (h : okDecl x = true) :
-    ((findL N.sd_decl (declBody x).kidsL).map fun v => hasSub "yes".toList v.flatten) = x.sd.map (fun e => e.2.2.2.2) := by
+    ((findL N.sd_decl (declBody x).kidsL).map fun v => hasSub ['y', 'e', 's'] v.flatten) = x.sd.map (fun e => e.2.2.2.2) := by
   obtain ⟨_, _, _, _, _, _, _, _, hsd, _⟩ := okDecl_parts h
   have e1 : (N.version_info == N.sd_decl) = false := by decide
   have e2 : (N.encoding_decl == N.sd_decl) = false := by decide
-  rw [declBody_kidsL, yes_lit]
+  rw [declBody_kidsL]
   have key : (findL N.sd_decl (sdKids x.sd)).map (fun v => hasSub ['y', 'e', 's'] v.flatten) = x.sd.map (fun e => e.2.2.2.2) := by
     cases hs : x.sd with
     | none => rfl
@@ -237,15 +235,76 @@ theorem decl_standalone (x : CDecl) (h : okDecl x = true) :
     simpa [findL, encKids, e1, e2] using key
 
 def docBody (d : CDoc) : CST :=
-  .seq [.node N.prolog (.seq [cstDeclOpt d.decl, .many (d.before.map cstMisc), .seq []]), cstItemNode d.root, .many (d.after.map cstMisc)]
+  .seq [.node N.prolog (.seq [cstDeclOpt d.decl, .many (d.before.map cstMisc), cstDoctypePart d.doctype]), cstItemNode d.root, .many (d.after.map cstMisc)]
 
 theorem cstDoc_eq (d : CDoc) : cstDoc d = .node N.document (docBody d) := rfl
+
+def miscEntries (ms : List CMisc) : List (Nat × CST) := ms.map (fun m => (N.misc, miscBody m))
+
+def declEntry : Option CDecl → List (Nat × CST)
+  | none => []
+  | some x => [(N.xml_decl, declBody x)]
+
+def doctypeEntries : Option (CDoctype × List CMisc) → List (Nat × CST)
+  | none => []
+  | some (dt, ms) => (N.doctype_decl, doctypeBody dt) :: miscEntries ms
+
+theorem prolog_kidsL (d : CDoc) :
+    (CST.seq [cstDeclOpt d.decl, .many (d.before.map cstMisc), cstDoctypePart d.doctype]).kidsL =
+      declEntry d.decl ++ (miscEntries d.before ++ doctypeEntries d.doctype) := by
+  have h1 : (cstDeclOpt d.decl).kidsL = declEntry d.decl := by
+    cases d.decl with
+    | none => rfl
+    | some x => simp [cstDeclOpt, cstDecl_eq, CST.kidsL, declEntry]
+  have h2 : (cstDoctypePart d.doctype).kidsL = doctypeEntries d.doctype := by
+    cases d.doctype with
+    | none => rfl
+    | some v => obtain ⟨dt, ms⟩ := v; simp [cstDoctypePart, cstDoctype_eq, CST.kidsL, kidsLL, kidsLL_misc, doctypeEntries, miscEntries]
+  simp only [CST.kidsL, kidsLL, h1, h2, kidsLL_misc, miscEntries, List.append_nil]
+
+theorem absProlog_misc_append : ∀ (ms : List CMisc) (rest : List (Nat × CST)) (xs : List TopItem), ms.all okMisc = true →
+    absProlog rest = .ok xs → absProlog (miscEntries ms ++ rest) = .ok (ms.filterMap CMisc.erase ++ xs)
+  | [], rest, xs, _, hr => by simpa [miscEntries] using hr
+  | m :: ms, rest, xs, h, hr => by
+    simp only [List.all_cons, Bool.and_eq_true] at h
+    have ih := absProlog_misc_append ms rest xs h.2 hr
+    simp only [miscEntries, List.map_cons, List.cons_append] at ih ⊢
+    simp only [absProlog, ih, beq_self_eq_true, if_true, absMisc_cst m h.1, List.filterMap_cons]
+    cases m.erase <;> rfl
+
+theorem absProlog_doctype (d : CDoc) (h : d.ok = true) : absProlog (doctypeEntries d.doctype) = .ok (doctypeErase d.doctype) := by
+  cases hd : d.doctype with
+  | none => rfl
+  | some v =>
+    obtain ⟨dt, ms⟩ := v
+    obtain ⟨b1, b2, _⟩ := CDoc.ok_doctype h dt ms hd
+    have hm := absProlog_misc_append ms [] [] b2 rfl
+    simp only [List.append_nil] at hm
+    have e1 : (N.doctype_decl == N.misc) = false := by decide
+    simp only [doctypeEntries, absProlog, hm, e1, Bool.false_eq_true, if_false, beq_self_eq_true, if_true, absDoctype_cst dt b1, doctypeErase]
 
 theorem absProlog_skip_decl (b : CST) (rest : List (Nat × CST)) : absProlog ((N.xml_decl, b) :: rest) = absProlog rest := by
   have e1 : (N.xml_decl == N.misc) = false := by decide
   have e2 : (N.xml_decl == N.doctype_decl) = false := by decide
   simp only [absProlog, e1, e2, Bool.false_eq_true, if_false]
   cases absProlog rest <;> rfl
+
+theorem absProlog_all (d : CDoc) (h : d.ok = true) :
+    absProlog (declEntry d.decl ++ (miscEntries d.before ++ doctypeEntries d.doctype)) =
+      .ok (d.before.filterMap CMisc.erase ++ doctypeErase d.doctype) := by
+  obtain ⟨_, h2, _⟩ := CDoc.ok_parts h
+  have hm := absProlog_misc_append d.before _ _ h2 (absProlog_doctype d h)
+  cases d.decl with
+  | none => simpa [declEntry] using hm
+  | some x => simp only [declEntry, List.cons_append, List.nil_append, absProlog_skip_decl]; exact hm
+
+theorem find_entries_none (n : Nat) (h1 : (N.misc == n) = false) (h2 : (N.doctype_decl == n) = false) (d : CDoc) :
+    (miscEntries d.before ++ doctypeEntries d.doctype).find? (fun x => x.1 == n) = none := by
+  have a : ∀ ms : List CMisc, (miscEntries ms).find? (fun x => x.1 == n) = none := fun ms => find_misc_none n h1 ms
+  rw [List.find?_append, a]
+  cases d.doctype with
+  | none => rfl
+  | some v => obtain ⟨dt, ms⟩ := v; simp [doctypeEntries, List.find?_cons, h2, a]
 
 theorem absDocument_cst (d : CDoc) (h : d.ok = true) : absDocument (docBody d) = .ok d.erase := by
   obtain ⟨h1, h2, _, h4, h5, h6, _⟩ := CDoc.ok_parts h
@@ -257,37 +316,35 @@ theorem absDocument_cst (d : CDoc) (h : d.ok = true) : absDocument (docBody d) =
     rw [cstItemNode_elem d.root h4] at this
     simpa [CST.size] using this
   have hroot := absElement_root d.root h4 h5 _ hsize
+  have hk : (docBody d).kidsL = (N.prolog, CST.seq [cstDeclOpt d.decl, .many (d.before.map cstMisc), cstDoctypePart d.doctype]) ::
+      (N.element, rootBody d.root) :: d.after.map (fun m => (N.misc, miscBody m)) := by
+    simp [docBody, CST.kidsL, kidsLL, cstItemNode_elem d.root h4, kidsLL_misc]
+  have hp := prolog_kidsL d
+  have hpro := absProlog_all d h
+  have hnone := find_entries_none N.xml_decl (by decide) (by decide) d
   cases hd : d.decl with
   | none =>
-    have hk : (docBody d).kidsL = (N.prolog, CST.seq [.seq [], .many (d.before.map cstMisc), .seq []]) ::
-        (N.element, rootBody d.root) :: d.after.map (fun m => (N.misc, miscBody m)) := by
-      simp [docBody, hd, cstDeclOpt, CST.kidsL, kidsLL, cstItemNode_elem d.root h4, kidsLL_misc]
-    have hp : (CST.seq [.seq [], .many (d.before.map cstMisc), .seq []]).kidsL = d.before.map (fun m => (N.misc, miscBody m)) := by
-      simp [CST.kidsL, kidsLL, kidsLL_misc]
-    simp only [absDocument, hk, findL, List.find?_cons, beq_self_eq_true, Option.map_some, hp,
-      find_misc_none N.xml_decl (by decide), Option.map_none, Option.bind_none, absProlog_misc d.before h2, e1,
+    rw [hd] at hp hpro hk
+    simp only [declEntry, List.nil_append] at hp hpro
+    simp only [absDocument, hk, findL, List.find?_cons, beq_self_eq_true, Option.map_some, hp, hnone,
+      Option.map_none, Option.bind_none, hpro, e1,
       allL, List.filter_cons, e2, e3, Bool.false_eq_true, if_false, filter_misc_all, filterMap_misc d.after h6, hroot]
     simp [CDoc.erase, hd]
   | some x =>
     have hx := h1 x hd
-    have hk : (docBody d).kidsL = (N.prolog, CST.seq [cstDecl x, .many (d.before.map cstMisc), .seq []]) ::
-        (N.element, rootBody d.root) :: d.after.map (fun m => (N.misc, miscBody m)) := by
-      simp [docBody, hd, cstDeclOpt, CST.kidsL, kidsLL, cstItemNode_elem d.root h4, kidsLL_misc]
-    have hp : (CST.seq [cstDecl x, .many (d.before.map cstMisc), .seq []]).kidsL =
-        (N.xml_decl, declBody x) :: d.before.map (fun m => (N.misc, miscBody m)) := by
-      simp [CST.kidsL, kidsLL, kidsLL_misc, cstDecl_eq]
+    rw [hd] at hp hpro hk
+    simp only [declEntry, List.cons_append, List.nil_append] at hp hpro
     have hv := decl_version x
     have he := decl_encoding x
     have hs := decl_standalone x hx
     simp only [absDocument, hk, findL, List.find?_cons, beq_self_eq_true, Option.map_some, hp, Option.bind_some,
-      absProlog_skip_decl, absProlog_misc d.before h2, e1,
-      allL, List.filter_cons, e2, e3, Bool.false_eq_true, if_false, filter_misc_all, filterMap_misc d.after h6, hroot]
+      hpro, e1, allL, List.filter_cons, e2, e3, Bool.false_eq_true, if_false, filter_misc_all, filterMap_misc d.after h6, hroot]
     simp only [findL] at hv he hs
     rw [hv, he, hs]
     simp [CDoc.erase, hd]
 
 /-- depth facts about the whole tree -/
-theorem docBody_depth (d : CDoc) : (docBody d).elemDepth ≤ d.root.depth ∧ (docBody d).ntDepth N.children = 0 := by
+theorem docBody_depth (d : CDoc) : (docBody d).elemDepth ≤ d.root.depth ∧ (docBody d).ntDepth N.children = doctypeDepth d.doctype := by
   have h1 : noElL (d.before.map cstMisc) = true := noElL_map _ _ (fun m _ => noEl_misc m)
   have h2 : noElL (d.after.map cstMisc) = true := noElL_map _ _ (fun m _ => noEl_misc m)
   have d1 := noElL_depth _ h1
@@ -310,7 +367,17 @@ theorem docBody_depth (d : CDoc) : (docBody d).elemDepth ≤ d.root.depth ∧ (d
         | none => rfl
         | some v => obtain ⟨w, e1, e2, q, b⟩ := v; simp [cstSd, noEl, noElL, hq, N.sd_decl, N.element, N.children]
       simp [cstDeclOpt, cstDecl, cstVersionInfo, noEl, noElL, hq, he, hs, N.xml_decl, N.version_info, N.version_num, N.element, N.children]
-  simp only [docBody, CST.elemDepth, CST.ntDepth, elemDepthL, ntDepthL, e1, e2, d0, d1, d2, d3.2, Bool.false_eq_true, if_false]
+  have d4 : (cstDoctypePart d.doctype).elemDepth = 0 ∧ (cstDoctypePart d.doctype).ntDepth N.children = doctypeDepth d.doctype := by
+    cases d.doctype with
+    | none => simp [cstDoctypePart, CST.elemDepth, elemDepthL, CST.ntDepth, ntDepthL, doctypeDepth]
+    | some v =>
+      obtain ⟨dt, ms⟩ := v
+      have hm : noElL (ms.map cstMisc) = true := noElL_map _ _ (fun m _ => noEl_misc m)
+      have dm := noElL_depth _ hm
+      have hdt := doctype_depth dt
+      have := noElem_depth _ hdt.1
+      simp [cstDoctypePart, CST.elemDepth, elemDepthL, CST.ntDepth, ntDepthL, this, hdt.2, dm.1, dm.2, doctypeDepth]
+  simp only [docBody, CST.elemDepth, CST.ntDepth, elemDepthL, ntDepthL, e1, e2, d0, d1, d2, d3.2, d4, Bool.false_eq_true, if_false]
   refine ⟨?_, by simp⟩
   have := d3.1
   simp only [Nat.max_zero, Nat.zero_max]
